@@ -410,8 +410,9 @@ def rule_spans(ck):
     I = eager_interp(repo)
     where = "parser::code"
     n = 0
-    for pieces in CORPUS:
-        text = _respell(pieces, "plain")
+    # statements whose operand is the rest of the line (no respelling possible, so not part of the C10 corpus)
+    texts = [_respell(pieces, "plain") for pieces in CORPUS] + [".error stop here\n", "lab: .error\n"]
+    for text in texts:
         r, pos, errs, raised = run_parser(I, "code", text)
         if raised or errs or r is None:
             raise Unknown(f"corpus statement {text!r} does not parse cleanly (errors {errs}, raised {raised})")
